@@ -201,6 +201,21 @@ class Exec:
             for a in (ix if isinstance(ix, tuple) else (ix,)):
                 if isinstance(a, np.ndarray):
                     self.owned.append((a, a.copy()))
+        # spelling of the integer index arrays (the specification does not see it): ndarray / nested list / nested tuple /
+        # integer tensor - all are the same advanced index to NumPy and must be to MyGrad
+        sp = ixspec.get("as") if isinstance(ixspec, dict) else None
+        if sp and ixspec["t"] == "adv":
+            def spell(a):
+                if sp == "list":
+                    return a.tolist()
+                if sp == "tuple":
+                    def tup(x):
+                        return tuple(tup(y) for y in x) if isinstance(x, list) else x
+                    return tup(a.tolist())
+                if sp == "tensor" and self.be == "mg":
+                    return mg.tensor(a)
+                return a
+            ix = tuple(spell(a) for a in ix)
         return ix
 
     def run(self, s):
